@@ -150,6 +150,18 @@ def run_bv(tu, unit, workdir):
     return res
 
 
+SHARED = {}
+
+
+def get_consts(tu, workdir):
+    """constants of the working tree (native dump), built once per check run"""
+    with _BUILD_LOCK:
+        if "consts" not in SHARED:
+            import consts
+            SHARED["consts"] = consts.Consts(tu, workdir)
+        return SHARED["consts"]
+
+
 class BVUnitClone(BVUnit):
     def __init__(self, u, label):
         self.__dict__.update(u.__dict__)
@@ -171,4 +183,7 @@ def run_units(tu, units, workdir, jobs=14, runner=None):
 def run_any(tu, unit, workdir):
     if unit.back_end == "BV":
         return run_bv(tu, unit, workdir)
-    return unit.run(tu, workdir)
+    try:
+        return unit.run(tu, workdir)
+    except ExtractionError as e:
+        return dict(unit=unit, status="undecided", reason="extraction: %s" % e, obligations=0, discharged=0, failed=[], wall_s=0.0, log=str(e))
